@@ -423,6 +423,8 @@ def check_strict_frame(c: Contract, I: Interp, p, args):
     bad = False
     for ev in p.events:
         if ev[0] == "write" and ev[1].pre and not ev[2].startswith("__") and id(ev[1]) not in allowed:
+            if len(ev) > 3 and ev[2] in ev[1].attrs0 and ev[3] is ev[1].attrs0[ev[2]]:
+                continue  # re-binding the very object the attribute already held: no reader can observe it (attribute stores are atomic)
             key = ("write", ev[1].name.split("[")[0], ev[2])
         elif ev[0] == "global_write":
             key = ("global_write", ev[1][0], ev[1][1])
